@@ -1,1 +1,114 @@
-// spec codecs
+//! Independent encoders / decoders of the DataSketches binary layouts, written from the published
+//! Java/C++ format descriptions (preamble tables), not from the crate under test. Every decoder also
+//! returns a field map `[(offset, len, name)]` for the structure-aware mutator of C14.
+
+pub mod tdigest;
+
+pub type Fields = Vec<(usize, usize, &'static str)>;
+
+pub struct Rd<'a> {
+    pub b: &'a [u8],
+    pub p: usize,
+    pub fields: Fields,
+}
+
+impl<'a> Rd<'a> {
+    pub fn new(b: &'a [u8]) -> Rd<'a> {
+        Rd { b, p: 0, fields: vec![] }
+    }
+    fn take(&mut self, n: usize, name: &'static str) -> Result<&'a [u8], String> {
+        if self.p + n > self.b.len() {
+            return Err(format!("image too short reading {} at offset {} (len {})", name, self.p, self.b.len()));
+        }
+        let s = &self.b[self.p..self.p + n];
+        self.fields.push((self.p, n, name));
+        self.p += n;
+        Ok(s)
+    }
+    pub fn u8(&mut self, name: &'static str) -> Result<u8, String> {
+        Ok(self.take(1, name)?[0])
+    }
+    pub fn u16le(&mut self, name: &'static str) -> Result<u16, String> {
+        Ok(u16::from_le_bytes(self.take(2, name)?.try_into().unwrap()))
+    }
+    pub fn u16be(&mut self, name: &'static str) -> Result<u16, String> {
+        Ok(u16::from_be_bytes(self.take(2, name)?.try_into().unwrap()))
+    }
+    pub fn u32le(&mut self, name: &'static str) -> Result<u32, String> {
+        Ok(u32::from_le_bytes(self.take(4, name)?.try_into().unwrap()))
+    }
+    pub fn u32be(&mut self, name: &'static str) -> Result<u32, String> {
+        Ok(u32::from_be_bytes(self.take(4, name)?.try_into().unwrap()))
+    }
+    pub fn u64le(&mut self, name: &'static str) -> Result<u64, String> {
+        Ok(u64::from_le_bytes(self.take(8, name)?.try_into().unwrap()))
+    }
+    pub fn f64le(&mut self, name: &'static str) -> Result<f64, String> {
+        Ok(f64::from_bits(self.u64le(name)?))
+    }
+    pub fn f32le(&mut self, name: &'static str) -> Result<f32, String> {
+        Ok(f32::from_bits(self.u32le(name)?))
+    }
+    pub fn f64be(&mut self, name: &'static str) -> Result<f64, String> {
+        Ok(f64::from_bits(u64::from_be_bytes(self.take(8, name)?.try_into().unwrap())))
+    }
+    pub fn f32be(&mut self, name: &'static str) -> Result<f32, String> {
+        Ok(f32::from_bits(u32::from_be_bytes(self.take(4, name)?.try_into().unwrap())))
+    }
+    pub fn bytes(&mut self, n: usize, name: &'static str) -> Result<&'a [u8], String> {
+        self.take(n, name)
+    }
+    pub fn remaining(&self) -> usize {
+        self.b.len() - self.p
+    }
+    pub fn expect_end(&self) -> Result<(), String> {
+        if self.p != self.b.len() {
+            return Err(format!("{} trailing bytes after the image", self.b.len() - self.p));
+        }
+        Ok(())
+    }
+}
+
+#[derive(Default)]
+pub struct Wr {
+    pub b: Vec<u8>,
+}
+
+impl Wr {
+    pub fn new() -> Wr {
+        Wr { b: vec![] }
+    }
+    pub fn u8(&mut self, v: u8) {
+        self.b.push(v);
+    }
+    pub fn u16le(&mut self, v: u16) {
+        self.b.extend_from_slice(&v.to_le_bytes());
+    }
+    pub fn u16be(&mut self, v: u16) {
+        self.b.extend_from_slice(&v.to_be_bytes());
+    }
+    pub fn u32le(&mut self, v: u32) {
+        self.b.extend_from_slice(&v.to_le_bytes());
+    }
+    pub fn u32be(&mut self, v: u32) {
+        self.b.extend_from_slice(&v.to_be_bytes());
+    }
+    pub fn u64le(&mut self, v: u64) {
+        self.b.extend_from_slice(&v.to_le_bytes());
+    }
+    pub fn f64le(&mut self, v: f64) {
+        self.b.extend_from_slice(&v.to_bits().to_le_bytes());
+    }
+    pub fn f32le(&mut self, v: f32) {
+        self.b.extend_from_slice(&v.to_bits().to_le_bytes());
+    }
+    pub fn f64be(&mut self, v: f64) {
+        self.b.extend_from_slice(&v.to_bits().to_be_bytes());
+    }
+    pub fn f32be(&mut self, v: f32) {
+        self.b.extend_from_slice(&v.to_bits().to_be_bytes());
+    }
+    pub fn bytes(&mut self, v: &[u8]) {
+        self.b.extend_from_slice(v);
+    }
+}
